@@ -153,6 +153,7 @@ func runC08(c *Ctx) {
 	// R3
 	ms := c.SSA.MethodSets.MethodSet(types.NewPointer(a.Conn))
 	nCmd := 0
+	helperChecked := map[*ssa.Function]bool{}
 	var names []string
 	for i := 0; i < ms.Len(); i++ {
 		sel := ms.At(i)
@@ -206,8 +207,43 @@ func runC08(c *Ctx) {
 				}
 			}
 		}
+		// unexported helpers of *Conn that send: evaluated in the calling context of this method
+		for _, cs := range CallSites(fn) {
+			callee := cs.Common().StaticCallee()
+			if callee == nil || callee == a.Raw || !c.InModuleFn(callee) || cs.Common().IsInvoke() {
+				continue
+			}
+			if callee.Object() != nil && callee.Object().Exported() {
+				continue
+			}
+			if _, isGo := cs.(*ssa.Go); isGo {
+				continue
+			}
+			var raws []ssa.CallInstruction
+			for _, x := range CallSites(callee) {
+				if x.Common().StaticCallee() == a.Raw {
+					raws = append(raws, x)
+				}
+			}
+			if len(raws) == 0 {
+				continue
+			}
+			args := make([]*Abs, len(cs.Common().Args))
+			for i, av := range cs.Common().Args {
+				args[i] = fl.At(av, cs.Block())
+			}
+			sub := fl.WithParams(callee, args)
+			for _, x := range raws {
+				direct++
+				r.Sites++
+				ab := sub.At(x.Common().Args[1], x.Block())
+				ok, why := ab.startsWithVerb(verb)
+				r.Add("R3", "verb:"+fn.Name()+":via:"+callee.Name(), c.InstrPos(x), c.FuncKey(fn), "line sent by helper "+callee.Name()+" on behalf of "+fn.Name()+" begins with "+verb+" then space or end", ok, why)
+				helperChecked[callee] = true
+			}
+		}
 		if direct == 0 {
-			r.Add("R3", "indirect:"+fn.Name(), c.Pos(fn.Pos()), c.FuncKey(fn), "command method reaches Raw only through checked command methods", false, "reaches Raw through an unexported helper: not decided")
+			r.Add("R3", "indirect:"+fn.Name(), c.Pos(fn.Pos()), c.FuncKey(fn), "command method reaches Raw only through checked command methods", false, "reaches Raw through a call chain that is not decided")
 		}
 	}
 	sort.Strings(names)
@@ -218,6 +254,19 @@ func runC08(c *Ctx) {
 		fn := cs.Parent()
 		if fn.Signature.Recv() != nil && recvNamed(fn) == a.Conn && fn.Object() != nil && fn.Object().Exported() && fn.Parent() == nil {
 			continue
+		}
+		if helperChecked[fn] {
+			// every caller of the helper must be a checked command method
+			allCmd := true
+			for _, hc := range c.Callers(fn) {
+				hp := hc.Parent()
+				if !(hp.Signature.Recv() != nil && recvNamed(hp) == a.Conn && hp.Object() != nil && hp.Object().Exported()) {
+					allCmd = false
+				}
+			}
+			if allCmd {
+				continue
+			}
 		}
 		r.Add("R3", "raw-caller:"+c.FuncKey(fn), c.InstrPos(cs), c.FuncKey(fn), "Raw is called only by exported command methods", false, "called from "+c.FuncKey(fn))
 	}
